@@ -2,7 +2,7 @@
 from ._stream import make
 
 PROPERTY = 'C06'
-TIERS = {'quick': {'runs': 24000, 'group': 250}, 'thorough': {'runs': 400000, 'group': 1000}}
+TIERS = {'quick': {'runs': 16000, 'group': 250}, 'thorough': {'runs': 400000, 'group': 1000}}
 RULE = ('Each run draws a base document (grammar generator, deep/alternating nesting to depth 40, '
         'repository corpus, sizing-command sweep, or a 0-6 symbol string over the token-kind alphabet), '
         'a chunking, an input form and 0-3 reader faults (EOF/LOSS/DUP/SWAP/FLIP/JUNK, half placed at '
